@@ -148,38 +148,41 @@ DOAPP = M + "/pkg/doapprove."
 _dlg_level = "Bounded symbolic execution (gosx) of the real device.ApproveOrCompare -> getRealDevice, loadDevice, (asa|ios|linux).LoadDevice, cisco.LoginEnable/checkBanner, checkDeviceName, console.* (GetSSHConn, Send, expectLog, StripEcho, ...), getCompare, approve/compare, ApplyCommands, cmd, isValidOutput, writeMem, errlog.Abort/HandleAbort against a line-oriented device simulator (harness Go code, itself symbolically executed) reached through stubs of the goexpect library; fault kind and dialogue position are solver variables. Counterexamples are replayed natively: the real binary code talks to the same simulator running as an external process behind a real pty and the real goexpect."
 PROPS["C09"] = {
     "explanation": _dlg_level + " C09: after a device-side failure (error text, unexpected output, garbled echo, no answer, connection closed, unconfirmed write memory, non-zero exit status on Linux) at any position, no further change command and no save is sent, exit status != 0, ERROR>>> printed; do-approve level: status file FAILED/DIFF, history END: FAILED; OK only if all commands were sent and the save confirmed.",
-    "bounds": {"quick": "ASA, IOS, Linux: one fixed change script each (3-6 commands incl. joined replacement), one fault of 8 (Linux 5) kinds at every dialogue position; do-approve.Main approve and compare on ASA", "thorough": "same (the fault space is exhausted)"},
-    "outside": "NSX and PAN-OS (HTTP) dialogues, two or more faults, chunked arrival / timing of device output, local file system faults, other change scripts",
+    "bounds": {"quick": "ASA, IOS, Linux: one fixed change script each (3-6 commands incl. joined replacement), one fault of 8 (Linux 5) kinds at every dialogue position; PAN-OS: one change script (2 config commands + commit + job poll), one fault (HTTP status 500, API status error, malformed XML, transport error, job FAIL) at every request; do-approve.Main approve and compare on ASA", "thorough": "same (the fault space is exhausted)"},
+    "outside": "NSX (HTTP) dialogue, two or more faults, chunked arrival / timing of device output, local file system faults, other change scripts",
     "selftest": "asa_simul|ios_simul|linux_simul",
     "runs": [
         {"entry": DEV + "VerifDialogueASA", "params": {"mode": "approve"}, "covers": ["failure injected", "approve succeeded", "fault reached"]},
         {"entry": DEV + "VerifDialogueIOS", "params": {"mode": "approve"}, "covers": ["failure injected", "approve succeeded"]},
         {"entry": DEV + "VerifDialogueLinux", "params": {"mode": "approve"}, "covers": ["failure injected", "fault reached"]},
+        {"entry": DEV + "VerifDialoguePAN", "params": {"mode": "approve"}, "covers": ["failure injected", "approve succeeded", "fault reached"]},
         {"entry": DOAPP + "VerifDoApprove", "params": {"action": "approve"}, "covers": ["failure injected", "OK recorded"]},
         {"entry": DOAPP + "VerifDoApprove", "params": {"action": "compare"}, "covers": ["failure injected"]},
     ],
 }
 PROPS["C11"] = {
     "explanation": _dlg_level + " C11: in compare mode (device.ApproveOrCompare isCompare, doapprove.Main compare) no line of the computed change script, no 'write memory', no reload command is ever sent, whatever fault is injected at whatever position; the only configuration-mode sequence is the ASA terminal width triple.",
-    "bounds": {"quick": "ASA, IOS, Linux with a non-empty difference; one fault of 8 (5) kinds at every position; do-approve compare on ASA", "thorough": "same"},
-    "outside": "NSX / PAN-OS, drc -C flag parsing (drc.Main is covered by the C12 harness), interlock outcomes other than faults",
+    "bounds": {"quick": "ASA, IOS, Linux, PAN-OS with a non-empty difference; one fault of 8 (5) kinds at every position; do-approve compare on ASA", "thorough": "same"},
+    "outside": "NSX, drc -C flag parsing (drc.Main is covered by the C12 harness), interlock outcomes other than faults",
     "selftest": "asa_simul|ios_simul",
     "runs": [
         {"entry": DEV + "VerifDialogueASA", "params": {"mode": "compare"}, "covers": ["compare run checked"]},
         {"entry": DEV + "VerifDialogueIOS", "params": {"mode": "compare"}, "covers": ["compare run checked"]},
         {"entry": DEV + "VerifDialogueLinux", "params": {"mode": "compare"}, "covers": ["compare run checked"]},
+        {"entry": DEV + "VerifDialoguePAN", "params": {"mode": "compare"}, "covers": ["compare run checked"]},
         {"entry": DOAPP + "VerifDoApprove", "params": {"action": "compare"}, "covers": ["compare run checked"]},
     ],
 }
 PROPS["C06"] = {
     "explanation": _dlg_level + " C06: reported hostname (expected / other / expected with suffix), marker (login banner on ASA/IOS, /etc/issue on Linux) present or absent and 'checkbanner' configured or not are solver-chosen; for a wrong or unmanaged device no change command, no configuration mode (except the ASA terminal-width triple), no reload and no save may appear in the transcript and the run must fail with ERROR>>>; without configured banner text approve must work normally.",
-    "bounds": {"quick": "ASA, IOS, Linux at device.ApproveOrCompare level: 3 (2) hostnames x marker x checkbanner", "thorough": "same"},
-    "outside": "PAN-OS (vsys marker, HA state) and NSX; approve via drc.Main / do-approve (covered for ASA by C12/C09 harnesses only with a managed device)",
+    "bounds": {"quick": "ASA, IOS, Linux at device.ApproveOrCompare level: 3 (2) hostnames x marker x checkbanner; PAN-OS: hostname x vsys display-name marker x HA state (active/passive/standalone)", "thorough": "same"},
+    "outside": "NSX (has no such check); approve via drc.Main / do-approve (covered for ASA by C12/C09 harnesses only with a managed device)",
     "selftest": "asa_simul|ios_simul|linux_simul",
     "runs": [
         {"entry": DEV + "VerifUnmanagedASA", "covers": ["wrong or unmanaged device", "managed device", "banner check not configured"]},
         {"entry": DEV + "VerifUnmanagedIOS", "covers": ["wrong or unmanaged device", "managed device", "banner check not configured"]},
         {"entry": DEV + "VerifUnmanagedLinux", "covers": ["wrong or unmanaged device", "managed device", "banner check not configured"]},
+        {"entry": DEV + "VerifUnmanagedPAN", "covers": ["wrong, unmanaged or passive device", "managed device"]},
     ],
 }
 PROPS["C15"] = {
@@ -194,14 +197,16 @@ PROPS["C15"] = {
 }
 PROPS["C17"] = {
     "explanation": _dlg_level + " C17: the login password (with characters that need URL escaping) is searched in every sink: session logs .login/.config/.change/.cmp, run log, history, status file, stdout, stderr, for success and for every fault kind/position (assertions inside the C06/C09/C11 harnesses).",
-    "bounds": {"quick": "ASA, IOS, Linux SSH dialogues incl. do-approve on ASA; all fault kinds/positions of C09", "thorough": "same"},
-    "outside": "PAN-OS API key and NSX session token / password in URLs, bodies and transport errors (HTTP stubs not built yet); passwords entered interactively",
+    "bounds": {"quick": "ASA, IOS, Linux SSH dialogues incl. do-approve on ASA; all fault kinds/positions of C09; PAN-OS: API key (with + / = characters) and password in every sink for every HTTP fault kind/position", "thorough": "same"},
+    "outside": "NSX session token / password (HTTP dialogue harness for NSX not built); passwords entered interactively",
     "selftest": "asa_simul",
     "runs": [
         {"entry": DEV + "VerifDialogueASA", "params": {"mode": "approve"}},
         {"entry": DEV + "VerifDialogueIOS", "params": {"mode": "approve"}},
         {"entry": DEV + "VerifDialogueLinux", "params": {"mode": "approve"}},
         {"entry": DEV + "VerifUnmanagedASA"},
+        {"entry": DEV + "VerifDialoguePAN", "params": {"mode": "approve"}},
+        {"entry": DEV + "VerifDialoguePAN", "params": {"mode": "compare"}},
         {"entry": DOAPP + "VerifDoApprove", "params": {"action": "approve"}},
         {"entry": DOAPP + "VerifDoApprove", "params": {"action": "compare"}},
     ],
